@@ -44,6 +44,7 @@ func mkBase(c *mon.Case, seed uint64, idx int) *base {
 		uid = br.Bytes(16)
 	}
 	msg := br.Bytes(br.Intn(301))
+	uid, msg = adjacent(br, uid, msg)
 	e, err := sm2sig.MessageDigest(k.P.X, k.P.Y, effUID(uid), msg)
 	if err != nil {
 		c.Inconclusive("reference digest: %v", err)
